@@ -40,4 +40,89 @@ theorem up_extent_iff (s H U n : Nat) (_hs : 0 < s) (hH : 0 < H) (hlo : (H - 1) 
     omega
 
 
+theorem locate_replicate (G Og oc : Nat) (hOg : 0 < Og) (h : oc < G * Og) :
+    locate (List.replicate G Og) oc = some (oc / Og, oc % Og) := by
+  induction G generalizing oc with
+  | zero => simp at h
+  | succ k ih =>
+    simp only [List.replicate_succ, locate]
+    by_cases hlt : oc < Og
+    · rw [if_pos hlt, Nat.div_eq_of_lt hlt, Nat.mod_eq_of_lt hlt]
+    · rw [if_neg hlt]
+      have hk : oc - Og < k * Og := by
+        rw [Nat.succ_mul] at h; omega
+      rw [ih (oc - Og) hk]
+      have e1 : oc / Og = (oc - Og) / Og + 1 := by
+        have : oc = (oc - Og) + Og := by omega
+        conv => lhs; rw [this]
+        exact Nat.add_div_right _ hOg
+      have e2 : oc % Og = (oc - Og) % Og := by
+        have : oc = (oc - Og) + Og := by omega
+        conv => lhs; rw [this]
+        exact Nat.add_mod_right _ _
+      simp [e1, e2]
+
+
+theorem splitSum_append (ifm : Nat → Nat → Int) (zp : Int) (w : Nat) (l1 l2 : List (Nat × Nat)) :
+    splitSum ifm zp w (l1 ++ l2) = splitSum ifm zp w l1 + splitSum ifm zp w l2 := by
+  induction l1 with
+  | nil => simp [splitSum]
+  | cons x xs ih => obtain ⟨a, b⟩ := x; simp only [List.cons_append, splitSum, ih]; omega
+
+theorem windowSum_split (ifm : Nat → Nat → Int) (zp : Int) (y0 a b w : Nat) :
+    windowSum ifm zp y0 (a + b) w = windowSum ifm zp y0 a w + windowSum ifm zp (y0 + a) b w := by
+  unfold windowSum
+  rw [sumRange_split]
+  congr 1
+  apply sumRange_congr; intro j _
+  apply sumRange_congr; intro c _
+  rw [Nat.add_assoc]
+
+theorem splitSum_full (ifm : Nat → Nat → Int) (zp : Int) (w hpc : Nat) (n : Nat) :
+    splitSum ifm zp w ((List.range n).map fun i => (i * hpc, hpc)) = windowSum ifm zp 0 (n * hpc) w := by
+  induction n with
+  | zero => simp [splitSum, windowSum, sumRange]
+  | succ k ih =>
+    rw [List.range_succ, List.map_append, splitSum_append, ih, Nat.succ_mul, windowSum_split]
+    simp [splitSum]
+
+theorem meanChunks_eq (h hpc : Nat) (hh : 0 < h) (hp : 0 < hpc) :
+    meanChunks h hpc = ((List.range ((h + hpc - 1) / hpc - 1)).map fun i => (i * hpc, hpc)) ++
+      [(((h + hpc - 1) / hpc - 1) * hpc, h - ((h + hpc - 1) / hpc - 1) * hpc)] := by
+  unfold meanChunks
+  have hnum : 0 < (h + hpc - 1) / hpc := Nat.div_pos (by omega) hp
+  generalize hn : (h + hpc - 1) / hpc = num at *
+  obtain ⟨k, rfl⟩ : ∃ k, num = k + 1 := ⟨num - 1, by omega⟩
+  simp only [Nat.add_sub_cancel]
+  rw [List.range_succ, List.map_append]
+  congr 1
+  · apply List.map_congr_left
+    intro i hi
+    have : i < k := List.mem_range.mp hi
+    have : (i + 1 == k + 1) = false := by simp; omega
+    simp [this]
+  · simp only [List.map_cons, List.map_nil, BEq.rfl, Bool.true_and]
+    -- k = (h + hpc - 1) / hpc - 1
+    have hk1 : k * hpc < h := by
+      have : (k + 1) * hpc ≤ h + hpc - 1 := by rw [← hn]; exact Nat.div_mul_le_self _ _
+      rw [Nat.succ_mul] at this; omega
+    have hk2 : h ≤ k * hpc + hpc := by
+      have h2 : h + hpc - 1 < hpc * ((h + hpc - 1) / hpc + 1) := Nat.lt_mul_div_succ (h + hpc - 1) hp
+      rw [hn, Nat.mul_comm, Nat.add_mul, Nat.add_mul, Nat.one_mul] at h2
+      omega
+    -- h = k*hpc + r with 0 < r ≤ hpc
+    have hmod : h % hpc = (h - k * hpc) % hpc := by
+      have : h = (h - k * hpc) + k * hpc := by omega
+      conv => lhs; rw [this]
+      exact Nat.add_mul_mod_self_right _ _ _
+    by_cases hr : h - k * hpc = hpc
+    · have : h % hpc = 0 := by rw [hmod, hr]; exact Nat.mod_self hpc
+      simp [this, hr]
+    · have hlt : h - k * hpc < hpc := by omega
+      have : h % hpc = h - k * hpc := by rw [hmod]; exact Nat.mod_eq_of_lt hlt
+      have hne : h % hpc ≠ 0 := by omega
+      simp [this, hne]
+      omega
+
+
 end VelaVerif.Lemmas.Rewrites2
